@@ -511,6 +511,37 @@ Definition agree_x (C : xcfg) (es : list xev) (ostates : list (xobs)) (oitems : 
   let '(l, (_, X)) := xtrace C es xstart in
   list_eqb xo_eqb l ostates && list_eqb oitem_eqb (map oseen (xout X)) oitems.
 
+(* ---------------------------------------------------------------- several threads of one process
+   Every thread has its own machine (shadow stack, filter state, pending events, cpu observation, copy of the
+   watched variable); the global watch item of -W var (mcount_watch_update: inited, data) is shared: a thread
+   that notices a change asks the global item and stays silent when another thread reported that value already.
+   (mcount_enabled is process-wide too: histories with trace_on / trace_off are not run through this.) *)
+Definition with_g (gi : bool) (gv : N) (X : xpart) : xpart :=
+  {| xs := xs X; pend := pend X; w_inited := w_inited X; w_cpu := w_cpu X; v_copy := v_copy X;
+     g_init := gi; g_val := gv; xout := xout X |}.
+Fixpoint set_nth {A} (n : nat) (x : A) (d : A) (l : list A) : list A :=
+  match n, l with
+  | O, _ :: r => x :: r
+  | O, [] => [x]
+  | S m, y :: r => y :: set_nth m x d r
+  | S m, [] => d :: set_nth m x d []
+  end.
+Fixpoint xexec_mt (C : xcfg) (es : list (nat * xev)) (ds : list xdstate) (gi : bool) (gv : N)
+  : list xdstate * list (nat * xobs) :=
+  match es with
+  | [] => (ds, [])
+  | (tid, e) :: r =>
+      let D := nth tid ds xstart in
+      let D' := xdstep C (fst D, with_g gi gv (snd D)) e in
+      let '(dl, ol) := xexec_mt C r (set_nth tid D' xstart ds) (g_init (snd D')) (g_val (snd D')) in
+      (dl, (tid, xobs_of D') :: ol)
+  end.
+(* one multi-thread case: the state after every hook (in the order the hooks ran) and every thread's stream *)
+Definition agree_mt (C : xcfg) (es : list (nat * xev)) (ostates : list (nat * xobs)) (oitems : list (list oitem)) : bool :=
+  let '(ds, ol) := xexec_mt C es [] false 0 in
+  list_eqb (fun a b => Nat.eqb (fst a) (fst b) && xo_eqb (snd a) (snd b)) ol ostates &&
+  list_eqb (list_eqb oitem_eqb) (map (fun D => map oseen (xout (snd D))) ds) oitems.
+
 (* table-driven configuration *)
 Definition mkxcfg (b : cfg) (rd : list (N * N)) (wc wv pm : bool) : xcfg :=
   {| xb := b; read_of := assoc 0 rd; wp_cpu := wc; wp_var := wv; pmu_ok := pm |}.
